@@ -157,7 +157,17 @@ macro_rules! typed_list {
 
 /// what routecore reports about `bytes` under `cfg`
 pub(crate) fn observe(cfg: &SessionConfig, bytes: &Vec<u8>) -> String {
-    let m = match UpdateMessage::from_octets(&bytes[..], cfg) { Ok(m) => m, Err(_) => return "err".into() };
+    // the other entry point of the property's observe_at list: Message::from_octets with the configuration
+    // is UpdateMessage::from_octets for a type-2 header (a panic here is a panic of the request)
+    let via_msg = routecore::bgp::message::Message::from_octets(&bytes[..], Some(cfg));
+    let m = match UpdateMessage::from_octets(&bytes[..], cfg) {
+        Ok(m) => m,
+        Err(_) => return if matches!(via_msg, Ok(routecore::bgp::message::Message::Update(_))) { "entry-points-differ".into() } else { "err".into() },
+    };
+    match via_msg {
+        Ok(routecore::bgp::message::Message::Update(u)) if u.length() == m.length() && u.as_ref() == m.as_ref() => {}
+        _ => return "entry-points-differ".into(),
+    }
     observe_msg(&m, bytes.len())
 }
 
@@ -263,7 +273,18 @@ pub(crate) fn group<'a>(reply: &'a str, name: &str) -> Option<&'a str> {
     body.split(" | ").find_map(|g| g.strip_prefix(name).and_then(|r| r.strip_prefix('=')))
 }
 
+/// Every request is decoded and observed on a thread of its own with the stack a spawned Rust thread
+/// has by default (2 MiB; the run loop's main thread has the larger `ulimit -s` stack): recursion that is
+/// driven by the input (e.g. nested ATTR_SETs) must not need more than any worker thread of a user has.
+/// A stack overflow kills the process; the run loop keeps the index of the request in progress.txt and
+/// ./check reports it as an `abort` violation with this request. A panic is passed on to the run loop.
 pub(crate) fn exec_upd(line: &str) -> String {
+    let l = line.to_string();
+    let h = std::thread::Builder::new().stack_size(2 * 1024 * 1024).spawn(move || exec_upd_here(&l)).expect("spawn");
+    match h.join() { Ok(s) => s, Err(e) => std::panic::resume_unwind(e) }
+}
+
+fn exec_upd_here(line: &str) -> String {
     let w: Vec<&str> = line.split(' ').collect();
     if !(w.len() == 3 || w.len() == 5) || w[0] != "upd" { return "bad-op".into(); }
     let (Some(c), Some(bytes)) = (parse_cfg(w[1]), unhex_strict(w[2])) else { return "bad-op".into() };
@@ -280,7 +301,8 @@ fn list_items(s: &str) -> Vec<&str> {
 /// the property C02, judged on one reply
 pub(crate) fn judge_c02(line: &str, reply: &str) -> Result<(), String> {
     if reply == "bad-op" || reply == "err" { return Ok(()); }
-    if reply == "panic" { return Err("UpdateMessage::from_octets panicked".into()); }
+    if reply == "panic" { return Err("UpdateMessage::from_octets / Message::from_octets panicked".into()); }
+    if reply == "entry-points-differ" { return Err("Message::from_octets(octets, Some(config)) and UpdateMessage::from_octets(octets, config) do not return the same UPDATE".into()); }
     let w: Vec<&str> = line.split(' ').collect();
     let nbytes = w.get(2).map(|h| if *h == "-" { 0 } else { h.len() / 2 }).unwrap_or(0);
     let body = reply.strip_prefix("ok ").ok_or("malformed reply")?;
@@ -312,28 +334,34 @@ pub(crate) fn judge_c02(line: &str, reply: &str) -> Result<(), String> {
         let v = group(reply, n).ok_or("group missing")?;
         if v != "none" && v != "err" { let k = list_items(v).len(); if k > nbytes { return Err(format!("`{}` yields {} items", n, k)); } }
     }
-    // the combined iterators are the chain MP, conventional – each part ends at its own first Err
+    // the attribute iterator is a section iterator too: an Err item (none occurs on an accepted message as
+    // the code stands) has to be its last
+    { let v = group(reply, "attrs").ok_or("group missing")?; if v != "err" { check_list("attrs", v)?; } }
+    // the combined iterators chain the two section iterators – each part ends at its own first Err; which
+    // section comes first is not fixed by the statement (routecore: MP, then conventional)
     for (comb, mp, conv) in [("w", "mw", "cw"), ("a", "ma", "ca")] {
         let c = group(reply, comb).ok_or("group missing")?;
         let mpv = group(reply, mp).ok_or("group missing")?;
         if mpv == "err" { if c != "err" { return Err(format!("`{}` is not an error although `{}` is", comb, mp)); } continue; }
-        let mut want: Vec<String> = sect(mp)?.map(|l| list_items(&l).iter().map(|s| s.to_string()).collect()).unwrap_or_default();
-        want.extend(list_items(group(reply, conv).unwrap()).iter().map(|s| s.to_string()));
+        let a: Vec<String> = sect(mp)?.map(|l| list_items(&l).iter().map(|s| s.to_string()).collect()).unwrap_or_default();
+        let b: Vec<String> = list_items(group(reply, conv).unwrap()).iter().map(|s| s.to_string()).collect();
         let got: Vec<String> = list_items(c).iter().map(|s| s.to_string()).collect();
-        if got != want { return Err(format!("`{}` does not yield the MP items followed by the conventional items", comb)); }
+        if got != [a.clone(), b.clone()].concat() && got != [b, a].concat() { return Err(format!("`{}` does not yield the items of the MP and of the conventional section iterator", comb)); }
     }
     // the all-or-nothing accessors agree with the iterators
     for (vec, conv, mp) in [("wv", "cw", "mw"), ("av", "ca", "ma")] {
         let v = group(reply, vec).ok_or("group missing")?;
         let mpv = group(reply, mp).ok_or("group missing")?;
-        let mut items: Vec<String> = list_items(group(reply, conv).unwrap()).iter().map(|s| s.to_string()).collect();
-        if let Some(l) = sect(mp)? { items.extend(list_items(&l).iter().map(|s| s.to_string())); }
-        let any_err = mpv == "err" || items.iter().any(|x| x == "E");
+        let items: Vec<String> = list_items(group(reply, conv).unwrap()).iter().map(|s| s.to_string()).collect();
+        let mut mpi: Vec<String> = Vec::new();
+        if let Some(l) = sect(mp)? { mpi.extend(list_items(&l).iter().map(|s| s.to_string())); }
+        let any_err = mpv == "err" || items.iter().chain(mpi.iter()).any(|x| x == "E");
         match (any_err, v.strip_prefix("ok:")) {
             (true, None) if v == "err" => {}
             (false, Some(l)) => {
+                // (either section first: the statement fixes no order between the sections)
                 let got: Vec<String> = list_items(l).iter().map(|s| s.to_string()).collect();
-                if got != items { return Err(format!("`{}` returned a different sequence than the iterators yield", vec)); }
+                if got != [items.clone(), mpi.clone()].concat() && got != [mpi, items].concat() { return Err(format!("`{}` returned a different sequence than the iterators yield", vec)); }
             }
             (true, _) => return Err(format!("`{}` returned Ok although an iterator item is an error", vec)),
             (false, _) => return Err(format!("`{}` returned Err although every iterator item is Ok", vec)),
@@ -418,12 +446,16 @@ fn gen_grammar(rng: &mut Rng) -> Vec<u8> {
                     let nl = *rng.pick(&[0usize, 4, 12, 16, 24, 32, 5]); v.push(adv(rng, nl) as u8); v.extend(rng.bytes(nl)); v.push(0);
                     v.extend(rb(rng, 0, 24)); v }
             15 => { let k = rng.pick(&FAM_NAMES).1; let mut v = k.0.to_be_bytes().to_vec(); v.push(k.1); v.extend(rb(rng, 0, 24)); v }
-            2 | 17 => { let n = rng.usize(0, 4); let mut v = vec![rng.below(6) as u8, adv(rng, n) as u8]; v.extend(rng.bytes(4 * n)); v }
+            // one to three segments, now and then one of 255 AS numbers (two or four octets each)
+            2 | 17 => { let mut v = Vec::new(); for _ in 0..*rng.pick(&[1usize, 1, 1, 2, 3]) {
+                    let n = if rng.chance(1, 30) { 255 } else { rng.usize(0, 4) };
+                    v.push(rng.below(6) as u8); v.push(adv(rng, n) as u8); let w = *rng.pick(&[4usize, 4, 2]); v.extend(rng.bytes(w * n)); } v }
             8 | 16 | 25 | 32 => { let k = match code { 8 => 4, 16 => 8, 25 => 20, _ => 12 }; { let n = k * rng.usize(0, 3) + *rng.pick(&[0usize, 0, 0, 0, 1, 2, 4, 6, 8, 10, 16]); rng.bytes(n) } }
-            _ => rb(rng, 0, 9),
+            // (now and then a value that needs the extended length form)
+            _ => if rng.chance(1, 25) { rb(rng, 250, 700) } else { rb(rng, 0, 9) },
         };
         if rng.chance(1, 10) { val.truncate(rng.usize(0, val.len())); }
-        let ext = rng.chance(1, 4);
+        let ext = rng.chance(1, 4) || (val.len() > 255 && rng.chance(5, 6));
         let fl = (rng.u8() & 0xe0) | if ext { 0x10 } else { 0 } | if rng.chance(1, 8) { rng.u8() & 0x0f } else { 0 };
         attrs.push(fl); attrs.push(code);
         let l = adv(rng, val.len());
@@ -441,6 +473,29 @@ fn gen_grammar(rng: &mut Rng) -> Vec<u8> {
     if rng.chance(1, 20) { let i = rng.usize(0, 15); m[i] = rng.u8(); }
     m.extend(body);
     if rng.chance(1, 8) { m.extend(rb(rng, 1, 8)); }
+    m
+}
+
+/// ATTR_SET (type 128, RFC 6368: four octets origin AS, then path attributes) nested `depth` deep with
+/// consistent lengths, the innermost set holding an ORIGIN; extended length where the value needs it
+pub(crate) fn nested_attr_set(depth: usize, flags: u8) -> Vec<u8> {
+    let mut inner: Vec<u8> = vec![0x40, 1, 1, 0];
+    for _ in 0..depth {
+        let mut v = vec![0, 0, 0xfd, 0xe8];
+        v.extend(&inner);
+        let mut a = Vec::with_capacity(v.len() + 4);
+        if v.len() > 255 { a.push(flags | 0x10); a.push(128); a.extend((v.len() as u16).to_be_bytes()); } else { a.push(flags & 0xef); a.push(128); a.push(v.len() as u8); }
+        a.extend(v);
+        inner = a;
+    }
+    inner
+}
+
+/// an UPDATE whose path attributes are `attrs`, announcing 10.0.0.0/8 (no length field lies)
+pub(crate) fn framed(attrs: &[u8]) -> Vec<u8> {
+    let total = 19 + 2 + 2 + attrs.len() + 2;
+    let mut m = header(total.min(0xffff), 2);
+    m.extend([0, 0]); m.extend((attrs.len() as u16).to_be_bytes()); m.extend(attrs); m.extend([8, 10]);
     m
 }
 
@@ -528,6 +583,40 @@ impl Prop for C02 {
             if b.len() <= 64 && i % 4 == 0 {
                 for k in 0..b.len() { let mut t = b[..k].to_vec(); if k >= 18 && rng.bool() { let l = k as u16; t[16..18].copy_from_slice(&l.to_be_bytes()); } out.push(line(&cfg, &t)); }
             }
+        }
+        // framed messages far beyond 4096 octets: a valid header whose length field is the number of octets,
+        // filled with conventional /32 announcements (some with a tail that does not parse)
+        for (i, total) in [4097usize, 9000, 30000, 65535, 65535].into_iter().enumerate() {
+            let mut b = header(total, 2);
+            b.extend([0, 0, 0, 0]);
+            while b.len() + 5 <= total { b.push(32); b.extend(rng.bytes(4)); }
+            while b.len() < total { b.push(if i % 2 == 0 { 0 } else { 0x21 }); }
+            out.push(line(if i == 4 { "2,1.1.b" } else { "4" }, &b));
+        }
+        // input-driven nesting: ATTR_SETs inside ATTR_SETs, all lengths consistent (depth 508 is the most that
+        // fits into 4096 octets, 8000 into the length field), alone and after ORIGIN / AS_PATH / NEXT_HOP;
+        // then with random attributes and adversarial inner lengths at random depths
+        for depth in [1usize, 2, 3, 5, 8, 12, 20, 40, 120, 300, 500, 508, 2000, 8000] {
+            for (k, cfg) in ["4", "2", "4,1.1.b"].into_iter().enumerate() {
+                let mut at = if k == 1 { vec![0x40, 1, 1, 0, 0x40, 2, 0, 0x40, 3, 4, 10, 0, 0, 1] } else { vec![] };
+                at.extend(nested_attr_set(depth, if k == 2 { 0xe0 } else { 0xc0 }));
+                if at.len() + 25 <= 0xffff { out.push(line(cfg, &framed(&at))); }
+            }
+        }
+        for _ in 0..(200 * scale) {
+            let depth = rng.usize(1, 60);
+            let mut inner = match rng.below(4) { 0 => vec![], 1 => vec![0x40, 1, 1, 0], 2 => { let mut v = vec![0xc0, 8, 4]; v.extend(rng.bytes(4)); v } _ => rb(rng, 0, 12) };
+            for d in 0..depth {
+                let mut v = rng.bytes(4); v.extend(&inner);
+                if rng.chance(1, 6) { v.extend([0x80, 4, 4]); v.extend(rng.bytes(4)); }
+                let ext = v.len() > 255 || rng.chance(1, 10);
+                let l = if rng.chance(1, 40) || (d + 1 == depth && rng.chance(1, 8)) { match rng.below(4) { 0 => 0, 1 => v.len() + 1, 2 => v.len().saturating_sub(1), _ => 3 } } else { v.len() };
+                let mut a = vec![(if rng.bool() { 0xc0 } else { 0xe0 }) | if ext { 0x10 } else { 0 }, 128];
+                if ext { a.extend((l as u16).to_be_bytes()); } else { a.push(l as u8); }
+                a.extend(v);
+                inner = a;
+            }
+            if inner.len() < 60000 { out.push(line(&gen_cfg(rng), &framed(&inner))); }
         }
         out.push("upd 4 zz".into());
         out.push("upd 3 00".into());
